@@ -11,6 +11,7 @@ func init() {
 			ruleJSONNumbers(c)
 			ruleJSONReset(c)
 			ruleJSONProtocol(c)
+			ruleJSONRawString(c)
 		},
 	})
 }
